@@ -580,6 +580,47 @@ impl Check for C10 {
                 let t = d.map_keys(&mut |k| templatize(k, wild, 2, src));
                 let text = t.print(true);
                 rep.desc = text.clone();
+                // metamorphic: whether a descriptor is a wallet policy depends on the ORDER of the
+                // numbers in `<M;N>`, not on their spelling: adding one constant to every
+                // alternative (so that e.g. <0;1> becomes <9;10>, <2;0> becomes <10;8>) changes nothing
+                {
+                    let k = *src.pick(&[8u32, 9, 98, 99, 999, 2_147_483_000]);
+                    let mut shifted = String::new();
+                    let mut rest = &text[..];
+                    let mut n_groups = 0;
+                    while let Some(p) = rest.find('<') {
+                        shifted.push_str(&rest[..=p]);
+                        let e = rest[p..].find('>').map(|x| x + p).unwrap_or(rest.len());
+                        let alts: Vec<String> = rest[p + 1..e].split(';').map(|a| a.parse::<u32>().map(|v| (v + k).to_string()).unwrap_or(a.to_string())).collect();
+                        shifted.push_str(&alts.join(";"));
+                        n_groups += 1;
+                        rest = &rest[e..];
+                    }
+                    shifted.push_str(rest);
+                    if n_groups > 0 {
+                        let (a, b2) = (WalletPolicy::from_str(&text), WalletPolicy::from_str(&shifted));
+                        if a.is_ok() != b2.is_ok() {
+                            return fail(
+                                "wallet-policy-depends-on-number-spelling",
+                                format!("`{}` is {} as a wallet policy but `{}` (every multipath alternative + {}) is {}", text, if a.is_ok() { "accepted" } else { "rejected" }, shifted, k, if b2.is_ok() { "accepted" } else { "rejected" }),
+                            );
+                        }
+                        if let Ok(w) = b2 {
+                            rep.class("wallet:shifted-accepted");
+                            match (w.clone().into_descriptor(), Descriptor::<DescriptorPublicKey>::from_str(&shifted)) {
+                                (Ok(back), Ok(want)) => {
+                                    if back != want {
+                                        return fail("wallet-into-descriptor", format!("wallet policy of `{}` converts back to `{}`", shifted, back));
+                                    }
+                                }
+                                (Err(e), Ok(_)) => return fail("wallet-into-descriptor-fails", format!("wallet policy of `{}` cannot be converted back: {}", shifted, e)),
+                                _ => {}
+                            }
+                        } else {
+                            rep.class("wallet:shifted-rejected");
+                        }
+                    }
+                }
                 let desc = match Descriptor::<DescriptorPublicKey>::from_str(&text) {
                     Ok(x) => x,
                     Err(_) => {
